@@ -1,27 +1,49 @@
 #!/venv/bin/python
-"""Regenerates MANIFEST.json from the table below (run from /verif): tools/gen_manifest.py"""
-import json, os, sys
+"""Regenerates MANIFEST.json (run from /verif): tools/gen_manifest.py
+READY lists the properties whose checks are built, silent on the repaired tree and mutant-tested; the per-check texts are
+taken from the property modules (RULE, ASSUMPTIONS) plus the technique table below."""
+import importlib, json, os, sys
 
 HERE = os.path.dirname(os.path.dirname(os.path.abspath(__file__)))
 sys.path.insert(0, HERE)
 
-# property -> (category, technique, level text, level note, design ref)
-CLAIMS = {
-    "C20": ("exploration", "runtime monitor: order/range/mask predicates on real CustomNormalization outputs over a seeded dtype x interval x stretch matrix",
-            "Held on every monitored execution of a seeded matrix (12 dtypes x 9 interval configurations x 4 stretches x value families incl. NaN/inf/ties/wide ranges, all presets, 6 stretch classes with inverses); range, monotonicity, limit and masking predicates are evaluated on the data, on the limits and on a probe grid reaching beyond the limits.",
-            "Finite sampling; float32 inputs judged at 2e-4 (working precision), others at 1e-9; limits judged only when vmin<vmax.", "DESIGN.md §3 C20"),
+READY = ["C02", "C03", "C06", "C07", "C11", "C17", "C20"]
+
+TECHNIQUE = {
+    "C01": "runtime monitor: structural deep-equality oracle over save/load round trips of seeded object graphs (kind matrix + random graphs, both stores, all compression levels)",
+    "C02": "differential runtime oracle: independent float64 multislice/mixed-state simulator vs the library's own preprocessing + forward pipeline (public reconstruct() with lr=0 and the explicit chain with autograd)",
+    "C03": "history + executable reference model in lock-step, class invariants at wrappers on every public Dataset method, in-place/copy twin runs, alias re-hashing",
+    "C04": "metamorphic runtime oracles (batch-size invariance, linearity, sub-mask recombination) and closed-form parallax references over real DirectPtychography.reconstruct runs",
+    "C05": "twin-run runtime oracle: original vs saved+reloaded / cloned / forced-fallback-cloned reconstructions continued with identical calls",
+    "C06": "differential runtime oracle: float64/exact-integer block reductions, explicit-matrix DFT and analytic conservation laws vs Dataset.bin/fourier_resample/pad/crop",
+    "C07": "differential runtime oracle against the installed scikit-image radon / iradon / _get_fourier_filter, plus batch, linearity and 0-degree identities",
+    "C08": "fault injection: sys.monitoring LINE failpoints at every executed serializer statement + raising I/O primitives + natural failures; filesystem-snapshot and load() oracle",
+    "C09": "offline checker over recorded batcher yield logs, in-situ conservation monitor (wrappers inside real reconstruct runs), batch-invariance and bitwise determinism twins",
+    "C10": "postcondition monitors on hostile raw tensors and in situ (wrappers on the constraint functions while reconstruct() runs with absurd learning rates)",
+    "C11": "history + executable reference model in lock-step, class invariant after every public Vector/_FieldView call, shared-state (aliasing) detector",
+    "C12": "runtime evaluation of the real functions on float64 tensors vs an independent numpy series and torch autograd; one-hot enumeration of all 25+25 labels; fit round trips",
+    "C13": "ground truth by construction (exact circular Fourier translation of band-limited images) vs the numpy and torch shift estimators",
+    "C14": "runtime monitor: expected object = in-memory pruning of the no-skip round trip, compared by strict deep equality; save-time vs load-time vs stored skip lists",
+    "C15": "closed-form geometry oracle for the resampling coordinates, weight-sum conservation, and fixed-point monitor on identical stacks",
+    "C16": "algebraic-identity monitors (energy, additivity, adjointness, projection idempotence) on the real operators, directly and in situ through wrappers during reconstruct()",
+    "C17": "oracle = generating field with independent periodic flood-fill component labelling; integrality of (out-in-c)/2pi for arbitrary input",
+    "C18": "float64 weighted-mean oracle, batch-size/path/model agreement, exact-surface fits, integer-origin roll identity",
+    "C19": "history + abstract reference model (spelling-normalised nested map with defaults stack) in lock-step over exhaustive and random histories",
+    "C20": "order/range/mask predicates on real CustomNormalization outputs over a seeded dtype x interval x stretch matrix, plus an in-situ monitor on the normalisation built by the plotting entry points",
 }
-CLAIMS["C02"] = ("exploration", "differential runtime oracle: independent float64 multislice/mixed-state simulator vs the library's own preprocessing + forward pipeline (public reconstruct() with lr=0 and the explicit forward chain with autograd)",
-    "Held on every monitored scene: data simulated by an independent numpy simulator from unit-amplitude truths are reproduced by the library's pipeline at the truth (all four losses ~ rounding noise, 1e-6..1e-3 of the loss at a 5% perturbation; predicted patterns equal simulated ones to 2e-5; l2 gradients at the truth <= 1e-3 of those at the perturbations) over object types, 1-4 slices, 1-3 modes, odd/even/non-square ROI, fractional raster scans, padding, batch sizes, detector masks, no_shift (incl. the learned-descan target path) and constant descan with integer detector rolls.",
-    "Finite sampling of scenes; constant descan judged only on scenes whose mean centre of mass is an integer (premise measured by the harness); float32 pipeline vs float64 reference, thresholds >= 18x above the measured noise floor and >= 1e3x below the effect of the seeded mutants.", "DESIGN.md §3 C02")
 ALL = ["C%02d" % i for i in range(1, 21)]
-PENDING_REASON = "check not built yet (work in progress; runtime-monitoring design exists in DESIGN.md §3)"
+PENDING_REASON = "check not finished yet (module under construction; runtime-monitoring design in DESIGN.md section 3) - not claimed until it is silent on the repaired tree and mutant-tested"
 
 checks = []
 for pid in ALL:
-    if pid not in CLAIMS:
+    if pid not in READY:
         continue
-    cat, tech, text, note, ref = CLAIMS[pid]
+    mod = importlib.import_module("vf.props." + pid.lower())
+    level = getattr(mod, "LEVEL", "exploration")
+    rule = " ".join(str(getattr(mod, "RULE", "")).split())
+    text = getattr(mod, "LEVEL_TEXT", None) or (
+        "Held (no violation outside known_findings.json) on every monitored execution of the real code in this run; reach comes from: " + rule[:900])
+    note = "Finite sampling / bounded enumeration (runtime monitoring decides only the executions produced). " + " | ".join(getattr(mod, "ASSUMPTIONS", []))[:1200]
     checks.append({
         "property_id": pid,
         "quick_cmd": "./check %s --tier quick" % pid,
@@ -29,9 +51,9 @@ for pid in ALL:
         "evidence_file": "evidence/%s.json" % pid,
         "replay_cmd_template": "./check %s --replay {path}" % pid,
         "engine": "vf",
-        "level_claimed": {"category": cat, "text": text, "design_ref": ref},
+        "level_claimed": {"category": level, "text": text, "design_ref": "DESIGN.md section 3 %s and section 8" % pid},
         "level_note": note,
-        "technique": tech,
+        "technique": TECHNIQUE[pid],
     })
 manifest = {
     "version": 1,
@@ -46,8 +68,8 @@ manifest = {
     "engines": [{"name": "vf", "path": "vf/", "serves_properties": [c["property_id"] for c in checks],
                  "kind_free_text": "runtime monitoring: seeded hostile workloads on the real code in worker subprocesses; oracles = reference models, postcondition wrappers, metamorphic/differential relations, sys.monitoring failpoints"}],
     "checks": checks,
-    "not_applicable": [{"property_id": p, "reason": PENDING_REASON} for p in ALL if p not in CLAIMS],
-    "notes": "Exit codes: 0 held / 1 VIOLATION / 2 INCONCLUSIVE (never on a healthy unchanged tree). Known findings: known_findings.json. Mutant self-tests: selftest/.",
+    "not_applicable": [{"property_id": p, "reason": PENDING_REASON} for p in ALL if p not in READY],
+    "notes": "Exit codes: 0 held / 1 VIOLATION / 2 INCONCLUSIVE (never on a healthy unchanged tree). Known findings: known_findings.json. Mutant self-tests: selftest/. Seeded changes: seeded/.",
 }
 with open(os.path.join(HERE, "MANIFEST.json"), "w") as f:
     json.dump(manifest, f, indent=1)
@@ -55,10 +77,16 @@ with open(os.path.join(HERE, "MANIFEST.json"), "w") as f:
 try:
     import jsonschema
     jsonschema.validate(manifest, json.load(open("/root/.vp/MANIFEST.schema.json")))
+    bad = []
     for c in checks:
         ev = os.path.join(HERE, c["evidence_file"])
         if os.path.exists(ev):
-            jsonschema.validate(json.load(open(ev)), json.load(open("/root/.vp/EVIDENCE.schema.json")))
-    print("MANIFEST.json valid; %d checks claimed" % len(checks))
+            try:
+                jsonschema.validate(json.load(open(ev)), json.load(open("/root/.vp/EVIDENCE.schema.json")))
+            except Exception as e:  # noqa: BLE001
+                bad.append((c["property_id"], str(e)[:200]))
+        else:
+            bad.append((c["property_id"], "no evidence file"))
+    print("MANIFEST.json valid; %d checks claimed; evidence problems: %s" % (len(checks), bad or "none"))
 except ImportError:
     print("jsonschema not available; wrote MANIFEST.json unvalidated")
